@@ -513,12 +513,16 @@ def seed_defect(rng, case, names, defect):
     elif defect == 'dangling' and dicts:
         d = rng.choice(dicts)[2]
         kind = rng.choice(['task_dep', 'setup', 'calc_dep', 'getargs'])
-        ghost = rng.choice(['nope', 'a:zz', 'g', 'a '])
+        ghost = rng.choice(['nope', 'a:zz', 'g', 'a ', '0', 'zz'])
         if kind == 'getargs':
             set_attr(d, 'getargs', ['dict', [['k', ghost]]])
         else:
             old = L._dget(d, kind)
-            items = (list(old[1]) if old and old[0] in ('list', 'tuple') else []) + [ghost]
+            items = (list(old[1]) if old and old[0] in ('list', 'tuple') else [])
+            items = [x for x in items if '*' not in x]
+            while names and len(items) < rng.choice([0, 1, 2, 2]):
+                items.append(rng.choice(names))
+            items.append(ghost)
             rng.shuffle(items)
             set_attr(d, kind, [rng.choice(['list', 'tuple']), items])
     elif defect == 'cmd-creator':
@@ -603,6 +607,26 @@ def exhaustive_cases():
                     res = {'k': 'gen', 'items': [{'k': 'dict', 'd': d}]}
                 out.append(({'creators': [copy.deepcopy(helper), {'name': 'f', 'line': 5, 'kind': 'func', 'result': res}]},
                             ['exhaustive:%s' % shape]))
+    # dangling references: every kind x position of the ghost among valid names x, y
+    helper_y = {'name': 'y', 'line': 3, 'kind': 'func', 'result': {'k': 'dict', 'd': [copy.deepcopy(ACTIONS)]}}
+    for kind in ('task_dep', 'setup', 'calc_dep', 'getargs'):
+        for ghost in ('0', 'xx', 'zz', 'x:s'):
+            for arrangement in (['G'], ['x', 'G'], ['G', 'x'], ['x', 'y', 'G'], ['x', 'G', 'y'], ['G', 'y', 'x'], ['x', 'y']):
+                items = [ghost if a == 'G' else a for a in arrangement]
+                for seq in ('list', 'tuple'):
+                    if kind == 'getargs':
+                        v = ['dict', [['k%d' % i, it] for i, it in enumerate(items)]]
+                    else:
+                        v = [seq, items]
+                    for shape in ('return', 'sub'):
+                        d = [copy.deepcopy(ACTIONS), [kind, v]]
+                        if shape == 'return':
+                            res = {'k': 'dict', 'd': d}
+                        else:
+                            res = {'k': 'gen', 'items': [{'k': 'dict', 'd': d + [['name', ['str', 's']]]}]}
+                        out.append(({'creators': [copy.deepcopy(helper), copy.deepcopy(helper_y),
+                                                  {'name': 'f', 'line': 5, 'kind': 'func', 'result': res}]},
+                                    ['exhaustive:refs']))
     # pairs that interact inside Task.__init__
     for u in (['list', []], ['list', ['u']], ['tuple', []], ['tuple', ['u']]):
         for g in (['dict', []], ['dict', [['k', 'x']]], ['dict', [['k', None]]], ['dict', [['k', 'nope']]], ['bool', False]):
